@@ -9,12 +9,6 @@ fn emit_choice_block(
 ) -> Result<(), CompilerError> {
     let section = analyze_weave_choice_section(choices, continuation, scope);
 
-    if !section.prefix_nodes.is_empty() {
-        for value in emit_nodes(section.prefix_nodes, scope, context)?.content {
-            out.push(value);
-        }
-    }
-
     match &section.mode {
         ChoiceEmissionMode::ThreadedAnonGather => {
             let threaded = build_threaded_choice_block_no_label(
@@ -25,22 +19,6 @@ fn emit_choice_block(
                 next_choice_index,
                 context,
                 fallback_continuation,
-            )?;
-            pack_threaded_choice_output(out, threaded)?;
-            return Ok(());
-        }
-        ChoiceEmissionMode::ThreadedLoopLabel { loop_label } => {
-            let threaded = build_wrapped_loop_choice_block(
-                section.choices,
-                section.continuation_nodes,
-                scope,
-                next_choice_index,
-                context,
-                WrappedLoopChoiceBlockConfig {
-                    loop_label,
-                    group_index: out.content.len(),
-                    fallback_continuation,
-                },
             )?;
             pack_threaded_choice_output(out, threaded)?;
             return Ok(());
@@ -159,16 +137,10 @@ fn emit_choice_block(
     Ok(())
 }
 
-enum ThreadedContinuationPlacement {
-    InsideGroup,
-    OutsideGroup,
-}
-
 struct ThreadedChoiceOutput {
     group: EmittedContainer,
-    group_name: Option<String>,
+    /// The gather after the choices, held by name inside the group.
     continuation: Option<(String, Value)>,
-    continuation_placement: ThreadedContinuationPlacement,
 }
 
 enum LooseEndNoFallback<'a> {
@@ -210,37 +182,11 @@ fn pack_threaded_choice_output(
     out: &mut EmittedContainer,
     mut threaded: ThreadedChoiceOutput,
 ) -> Result<(), CompilerError> {
-    if let Some((name, value)) = threaded
-        .continuation
-        .as_ref()
-        .filter(|_| {
-            matches!(
-                threaded.continuation_placement,
-                ThreadedContinuationPlacement::InsideGroup
-            )
-        })
-        .cloned()
-    {
+    if let Some((name, value)) = threaded.continuation {
         threaded.group.insert_named(name, value);
     }
 
-    let group_value = threaded
-        .group
-        .into_json_array(threaded.group_name.as_deref(), None)?;
-
-    if let Some((name, value)) = threaded.continuation.filter(|_| {
-        matches!(
-            threaded.continuation_placement,
-            ThreadedContinuationPlacement::OutsideGroup
-        )
-    }) {
-        let mut outer = EmittedContainer::default();
-        outer.push(group_value);
-        outer.insert_named(name, value);
-        out.push(outer.into_json_array(None, None)?);
-    } else {
-        out.push(group_value);
-    }
+    out.push(threaded.group.into_json_array(None, None)?);
 
     Ok(())
 }
@@ -402,8 +348,6 @@ fn build_threaded_choice_block_no_label(
 
     Ok(ThreadedChoiceOutput {
         group: choices_group,
-        group_name: None,
         continuation: Some((g_name, continuation_value)),
-        continuation_placement: ThreadedContinuationPlacement::InsideGroup,
     })
 }
